@@ -6,6 +6,7 @@ import (
 	"encoding/json"
 	"fmt"
 	"io"
+	"runtime"
 	"strings"
 
 	"github.com/ulikunitz/lz"
@@ -144,6 +145,11 @@ func decAlphabet(n *DecNode, decoder bool) []DecOp {
 			addBlk([]lz.Seq{f, g}, 2, false)
 		}
 	}
+	// blocks of three and four small sequences: one WriteBlock call then needs several drain-and-retry rounds
+	one := lz.Seq{LitLen: 1, MatchLen: 1, Offset: 1}
+	addBlk([]lz.Seq{one, one, one}, 0, false)
+	addBlk([]lz.Seq{one, one, one, one}, 1, false)
+	addBlk([]lz.Seq{one, {LitLen: 0, MatchLen: 2, Offset: 2}, {LitLen: 1, MatchLen: 1, Offset: u32(min(avail+5, W) + 1)}}, 0, false) // third sequence malformed after two good ones
 	if !decoder {
 		unread := len(b.Data) - b.R
 		seenR := map[int]bool{}
@@ -311,6 +317,7 @@ func applyDecOp(n *DecNode, op *DecOp) (next DecNode, v verdicts, ok bool) {
 	}()
 	W, B := b.WindowSize, b.BufferSize
 	_ = B
+	rejectedMalformed := false
 	switch op.Kind {
 	case "WriteByte":
 		c := lit(int64(len(m.Out)))
@@ -361,6 +368,7 @@ func applyDecOp(n *DecNode, op *DecOp) (next DecNode, v verdicts, ok bool) {
 				ok = false
 				return
 			}
+			rejectedMalformed = true
 			if k != 0 {
 				v.add("C05", site+"|n-on-reject", "rejected WriteMatch returned n=%d", k)
 			}
@@ -406,6 +414,7 @@ func applyDecOp(n *DecNode, op *DecOp) (next DecNode, v verdicts, ok bool) {
 			ok = false
 			return
 		}
+		rejectedMalformed = km >= 0
 		var wantN, wantL int
 		if err == nil {
 			wantN, wantL = m.AppendSeqs(&blk, len(blk.Sequences), true)
@@ -433,6 +442,9 @@ func applyDecOp(n *DecNode, op *DecOp) (next DecNode, v verdicts, ok bool) {
 		}
 		if nn != wantN {
 			v.add("C17", site+"|n", "%s returned n=%d but %d bytes were appended (k=%d l=%d err=%v)", op, nn, wantN, kk, ll, err)
+			if km >= 0 {
+				v.add("C05", site+"|reject-n", "malformed %s rejected at sequence %d returned n=%d, the well-formed prefix has %d bytes", op, kk, nn, wantN)
+			}
 		}
 		if ll != wantL {
 			v.add("C17", site+"|l", "%s returned l=%d but %d literal bytes were consumed (k=%d err=%v)", op, ll, wantL, kk, err)
@@ -491,7 +503,12 @@ func applyDecOp(n *DecNode, op *DecOp) (next DecNode, v verdicts, ok bool) {
 			v.add("C04", site+"|flush-incomplete", "after Flush %d of %d bytes have reached the writer", m.Read, len(m.Out))
 		}
 	}
+	nv := len(v)
 	decInvariants(b, m, &v, site)
+	if rejectedMalformed && len(v) > nv {
+		// "rejection is atomic": after rejecting a malformed operation the buffer must be exactly what the model says
+		v.add("C05", site+"|reject-not-atomic", "after rejecting malformed %s the buffer is not the state before the call plus the well-formed prefix: %s", op, v[nv].Msg)
+	}
 	for _, x := range v {
 		if strings.HasSuffix(x.Sig, "|Off") || strings.Contains(x.Sig, "|window") || strings.Contains(x.Sig, "|unread") || strings.Contains(x.Sig, "R-range") {
 			ok = false
@@ -607,15 +624,25 @@ func runDecBFS(prop string, props map[string]bool, c DecConfig, level int, depth
 	if level == 1 {
 		lvl = "Decoder"
 	}
-	distinctOps := map[string]struct{}{}
-	res := engine.BFS(init, depth, stateCap, decKey, func(n *engine.Node[DecNode], emit func(DecNode, uint16)) {
+	// the nodes of a level are expanded by several goroutines (the shards of this check are few and very unequal)
+	workers := max(runtime.NumCPU()/2, 1)
+	type wstate struct {
+		st          engine.Stats
+		distinctOps map[string]struct{}
+	}
+	ws := make([]wstate, workers)
+	for i := range ws {
+		ws[i].distinctOps = map[string]struct{}{}
+	}
+	res := engine.BFSPar(init, depth, stateCap, workers, decKey, func(w int, n *engine.Node[DecNode], emit func(DecNode, uint16)) {
+		lst := &ws[w].st
 		alpha := decAlphabet(&n.State, level == 1)
 		for i := range alpha {
 			op := &alpha[i]
 			next, v, ok := applyDecOp(&n.State, op)
-			st.Transitions++
-			if len(distinctOps) < 4096 {
-				distinctOps[op.String()] = struct{}{}
+			lst.Transitions++
+			if len(ws[w].distinctOps) < 4096 {
+				ws[w].distinctOps[op.String()] = struct{}{}
 			}
 			for _, x := range v {
 				if !props[x.Prop] {
@@ -631,16 +658,27 @@ func runDecBFS(prop string, props map[string]bool, c DecConfig, level int, depth
 				col.Report(engine.Violation{Property: prop, Sig: sig, Msg: x.Msg, Case: cs, Rank: int64(len(path))<<20 + int64(c.B)<<10 + int64(c.W)})
 			}
 			if !ok {
-				st.Pruned++
+				lst.Pruned++
 				continue
 			}
 			if len(next.Model.Out) > maxBytes {
-				st.Add("pruned_by_byte_volume", 1)
+				lst.Add("pruned_by_byte_volume", 1)
 				continue
 			}
 			emit(next, uint16(i))
 		}
 	})
+	distinctOps := map[string]struct{}{}
+	for i := range ws {
+		st.Transitions += ws[i].st.Transitions
+		st.Pruned += ws[i].st.Pruned
+		for k, v := range ws[i].st.Extra {
+			st.Add(k, v)
+		}
+		for k := range ws[i].distinctOps {
+			distinctOps[k] = struct{}{}
+		}
+	}
 	st.States += res.States
 	st.Execs += res.States // every distinct state was reached by replaying a real path
 	if int64(res.Depth) > st.MaxDepth {
